@@ -119,9 +119,17 @@ structure Plug where
   sort : Value → Value → Int
   lyb : Value → Bytes
   unlyb : Bytes → Except MErr Value
+  /-- does a stored value carry THIS type as its `realtype`?  (`false` for leafref: `lyplg_type_store_leafref` stores the value with the
+      plug-in of the target's type, so `value.realtype` is the target's type, which is not an element of the union's `types` array) -/
+  ownRealtype : Bool := true
 
 /-- the plug-in of a modelled member type -/
-def MTy.plug (m : MTy) : Plug := ⟨m.store, m.canon, m.cmpEq, m.sort, m.lyb, m.unlyb⟩
+def MTy.plug (m : MTy) : Plug :=
+  { store := m.store, canon := m.canon, cmpEq := m.cmpEq, sort := m.sort, lyb := m.lyb, unlyb := m.unlyb }
+
+/-- `plugins_types/leafref.c` with `require-instance false`: store / compare / sort / print / dup are the callbacks of the target's type
+    (`type_lr->realtype->plugin->…`), the stored value has the TARGET's type as `realtype` -/
+def lrefPlug (target : Plug) : Plug := { target with ownRealtype := false }
 
 /-- module part / name part of a canonical identityref value `module:name` -/
 def identMod (s : Bytes) : Bytes := s.takeWhile (· != 58)
@@ -214,6 +222,21 @@ def sortU (ms : List Plug) (a b : UVal) : Int :=
     | some m => m.sort a.val b.val
     | none => 0
   else if a.idx < b.idx then 1 else -1
+
+/-- `lyplg_type_sort_union` as the C code runs it when some member does not store its own type as `realtype` (leafref): the loop
+    `LY_ARRAY_FOR(types, u) { if (types[u] == val1->…realtype) {rc = 1; break;} else if (types[u] == val2->…realtype) {rc = -1; break;} }`
+    never meets the value of such a member; when it meets neither value `rc` stays 0 (`assert(rc != 0)` is compiled out with NDEBUG).
+    For member lists without leafref this is `sortU` (`sortUV_eq_sortU`). -/
+def sortUV (ms : List Plug) (a b : UVal) : Int :=
+  if a.idx == b.idx then
+    match ms[a.idx]? with
+    | some m => m.sort a.val b.val
+    | none => 0
+  else
+    let va := (ms[a.idx]?.map Plug.ownRealtype).getD true
+    let vb := (ms[b.idx]?.map Plug.ownRealtype).getD true
+    if a.idx < b.idx then (if va then 1 else if vb then -1 else 0)
+    else (if vb then -1 else if va then 1 else 0)
 
 /-- `lyb_union_print`: the member is looked up again (`union_find_type` on the original text — the same member), then
     4-byte little-endian index + the member's LYB value -/
